@@ -42,6 +42,8 @@ TrOf(r, v) ==
     [] v = 7 -> IF n >= 1 THEN [an |-> 2, c |-> 3, t |-> <<0, 1>>] ELSE <<>>   \* anode, NIL-padded
     [] v = 8 -> [an |-> 3, c |-> 1, t |-> <<>>]                 \* anode without children
     [] v = 9 -> [an |-> 1, c |-> 2, t |-> Iota(n)]              \* same name as 4, other cost
+    [] v = 10 -> [an |-> 3, c |-> 0, t |-> <<>>]                \* anode without children, cost 0
+    [] v = 11 -> [an |-> 2, c |-> 0, t |-> Iota(n)]             \* anode, all in order, cost 0
     [] OTHER -> <<>>
 
 RuleMenu ==
